@@ -82,6 +82,7 @@ func (r *Parser) Next(f *Field) bool {
 		// to allocate new memory and copy each field value. This way, not only the caller doesn't
 		// have to worry about allocations and ownership, but also bigger and less frequent allocations
 		// are made, compared to the previous usage – allocations are now made per event, not per field value.
+		verifChunk(r.inputScanner)
 		r.fieldScanner.Reset(r.inputScanner.Text())
 	}
 
